@@ -112,7 +112,7 @@ Section Small.
     - eapply B; eauto.
   Qed.
 
-  Lemma ieq_adjust P m : ieq m (adjust_trigger_point K m).
+  Lemma ieq_adjust m : ieq m (adjust_trigger_point K m).
   Proof.
     unfold adjust_trigger_point. destruct (k_auto K); [|apply ieq_refl].
     unfold adjust. destruct (cf_thr m <=? st_alloc m); [repeat split|].
@@ -151,7 +151,7 @@ Section Rec.
     { cbn. split; [exact Hnb|]. split; [exact HI|]. split; [apply FrM_refl|]. split; [intros _; apply NDD_refl; reflexivity | exact I]. }
     destruct k as [|k']; [exact Hret|]. destruct (pc m) as [|p0 rest] eqn:Hpc; [exact Hret|].
     destruct (rec_all b E [] KCollectOnce m) as (HP1 & F1 & G1).
-    { cbn. repeat split; assumption. }
+    { exact (conj Hnb (conj HI (conj Hc (conj HB Hn)))). }
     { cbn. split; [right; exact HB | exact Hc]. }
     { exact Hn. }
     destruct (rec KCollectOnce m) as [m1 r1]. cbn [fst snd] in *.
@@ -161,7 +161,7 @@ Section Rec.
       pose proof (G_Ibuf K [] m1 HG1 Hnb1 Hn1) as HB1.
       assert (Hc1 : st_collecting m1 = true) by (rewrite (BufBase.fr_coll _ _ F1); exact Hc).
       destruct (rec_all b E [] (KCollectLoop k') m1) as (HP2 & F2 & G2).
-      { cbn. repeat split; assumption. }
+      { exact (conj Hnb1 (conj HI1 (conj Hc1 (conj HB1 Hn1)))). }
       { cbn. split; [right; exact HB1 | exact Hc1]. }
       { exact Hn1. }
       destruct (rec (KCollectLoop k') m1) as [m2 r2]. cbn [fst snd] in *.
@@ -185,7 +185,7 @@ Section Rec.
     assert (HI1 : SInv K b E [] m1) by (eapply SInv_same; eauto; reflexivity).
     assert (HB1 : BufBase.Ibuf K [] m1) by (eapply Ibuf_nil_same; [..|exact HB]; reflexivity).
     destruct (rec_all b E [] (KCollectLoop n) m1) as (HP1 & F1 & G1).
-    { cbn. repeat split; try assumption. }
+    { exact (conj Hnb (conj HI1 (conj eq_refl (conj HB1 Hn)))). }
     { cbn. split; [right; exact HB1 | reflexivity]. }
     { exact Hn. }
     destruct (rec (KCollectLoop n) m1) as [m2 r]. cbn [fst snd] in *.
@@ -201,8 +201,9 @@ Section Rec.
       - apply Fr_unstrip.
         + eapply (FrM_proper K E m1 m2); try reflexivity; [|exact HF2].
           cbn. pose proof (fr_wp _ _ _ _ _ HF2) as Hw. exact Hw.
-        + cbn. symmetry. exact Hc.
-        + intros o x Hx Hbx. eapply Ibuf_nomark_alloc; eauto. apply not_elem_of_nil.
+        + exact Hc.
+        + reflexivity.
+        + intros o x Hx Hbx. eapply (Ibuf_nomark_alloc K [] m); eauto. apply not_elem_of_nil.
         + intros o x' Hx' Hbx. eapply (Ibuf_nomark K [] m2); eauto. apply not_elem_of_nil.
       - intros Hn0. eapply (NDD_proper m1 m2); [reflexivity | reflexivity | reflexivity | apply HD2, Hn0]. }
     destruct r; try exact I.
@@ -231,14 +232,14 @@ Section Rec.
     assert (Hown : forall m', post_own c m m') by (destruct Hcc; subst; intros; exact I).
     pose proof (G_Ibuf K [] m (BufStep.G_idle K A m HG Hc) Hnb Hn) as HB.
     destruct (rec_all b E A KCollect m) as (HP1 & F1 & G1).
-    { cbn. repeat split; assumption. }
+    { exact (conj Hnb (conj HI (conj Hc (conj HB Hn)))). }
     { cbn. split; assumption. }
     { exact Hn. }
     destruct (rec KCollect m) as [m1 r]. cbn [fst snd] in *.
     rewrite Post_nc by exact Hic. rewrite Hex.
     destruct r; cbn [fst snd]; try exact I.
     - destruct HP1 as (A1 & A2 & A3 & A4 & _).
-      pose proof (ieq_adjust K P m1) as Hie.
+      pose proof (ieq_adjust K m1) as Hie.
       split; [eapply NoBad_log; [|exact A1]; unfold adjust_trigger_point, adjust; repeat (match goal with |- context [if ?c then _ else _] => destruct c end); reflexivity|].
       split; [eapply SInv_ieq; eauto|].
       split; [eapply Fr_trans; [exact A3 | apply Fr_ieq, Hie]|].
